@@ -39,7 +39,7 @@ pub fn judge(ctx: &Ctx, l: &mut Local, p: &Params, site: Site, date: NaiveDate, 
     if consumes_intervals(pol) && interval_method(p) {
         return; // outside the property's quantifier
     }
-    let r = prayer_times_dt(p, site.loc(), date, None);
+    let r = pt(p, site.loc(), date, None);
     l.evals += 1;
     let case = || PtCase::new(p, site, date);
     let k = |pr: Prayer| format!("{:?}_{}", pr, case().key());
@@ -125,9 +125,9 @@ pub fn explore(ctx: &Ctx) {
     par_jobs(ctx, &jobs, |(site, m), l| {
         let p0 = params_conv(*m);
         for &d in &dates {
-            let r0 = prayer_times_dt(&p0, site.loc(), d, None);
+            let r0 = pt(&p0, site.loc(), d, None);
             l.evals += 1;
-            let r_ang = if interval_method(&p0) { l.evals += 1; prayer_times_dt(&angle_only(&p0), site.loc(), d, None) } else { r0.clone() };
+            let r_ang = if interval_method(&p0) { l.evals += 1; pt(&angle_only(&p0), site.loc(), d, None) } else { r0.clone() };
             for &pol in &pols {
                 let p = params(*m, pol, RoundSeconds::None);
                 judge(ctx, l, &p, *site, d, &r0, &r_ang);
@@ -141,8 +141,8 @@ pub fn replay(ctx: &Ctx, _clause: &str, case: &Value) {
     let mut l = Local::default();
     let mut p0 = c.params.clone();
     p0.extreme_latitude_method = ExtremeLatitudeMethod::None;
-    let r0 = prayer_times_dt(&p0, c.site.loc(), c.date, None);
-    let r_ang = prayer_times_dt(&angle_only(&p0), c.site.loc(), c.date, None);
+    let r0 = pt(&p0, c.site.loc(), c.date, None);
+    let r_ang = pt(&angle_only(&p0), c.site.loc(), c.date, None);
     judge(ctx, &mut l, &c.params, c.site, c.date, &r0, &r_ang);
     println!("  conventional: {}\n  with policy:  {}", fmt_r(&r0), fmt_r(&c.run()));
 }
